@@ -72,6 +72,7 @@ func (u *ut0311) Broadcast(addr *net.UDPAddr, request []byte) ([][]byte, error) 
 
 	var replies = make([][]byte, 0)
 	var err error
+	var lock sync.Mutex // guards 'replies' and 'err', which are shared with the reader goroutine
 
 	// NTS: set-ip doesn't return a reply
 	if request[1] != 0x96 {
@@ -80,10 +81,14 @@ func (u *ut0311) Broadcast(addr *net.UDPAddr, request []byte) ([][]byte, error) 
 				reply := make([]byte, 2048)
 
 				if N, remote, errx := connection.ReadFromUDP(reply); errx != nil {
+					lock.Lock()
 					err = errx
+					lock.Unlock()
 					return
 				} else {
+					lock.Lock()
 					replies = append(replies, reply[:N])
+					lock.Unlock()
 
 					u.debugf(fmt.Sprintf(" ... received %v bytes from %v (UDP)\n%s", N, remote, codec.Dump(reply[:N], " ...          ")), nil)
 				}
@@ -93,7 +98,13 @@ func (u *ut0311) Broadcast(addr *net.UDPAddr, request []byte) ([][]byte, error) 
 
 	time.Sleep(u.timeout)
 
-	return replies, err
+	lock.Lock()
+	defer lock.Unlock()
+
+	received := make([][]byte, len(replies))
+	copy(received, replies)
+
+	return received, err
 }
 
 /*
